@@ -80,6 +80,32 @@ TRUSTED PART (everything else is re-checked by the kernel through the equality t
    `np.zeros` + `x += e`) are re-bound; this is sound because such an array must have been created in the
    function and every second name for it (`y = x`, storing it in a tuple / list) is refused.
 
+ * PHASE 4 (pytri: the triangle kernels of triangle_helpers.py / triangle_intersection.py) adds to the trusted part:
+     - `x = np.empty((d, k))` that the code fills COLUMN BY COLUMN (`x[:, j] = <1-D array>`, or `x[0, j] = <number>` when d is
+       the constant 1): the list of the d rows written so far (`Rt.mcNew`, `Rt.pushCol`); the entries of `np.empty` are
+       unspecified, therefore a column may only be written directly after the columns written so far, with exactly d
+       entries (no broadcasting), and the variable may only be READ (returned, used in an expression: `Rt.mcFreeze`) when
+       all k columns are there; anything else is `Err.badInput` (the theorems state `.ok`, so they would break).  The same
+       array filled by the two row blocks `x[:a, :] = A; x[a:, :] = B` (same variable `a`, A first on the untouched
+       array: `Rt.mcRows0`, `Rt.asShape`) is `A ++ B`.
+     - `x[:, 0] op= v` for a `d x 1` array created in the function (`Rt.vzipInto`: v has d entries or one).
+     - int running variables of loops (`index = 0` ... `index += 1`): Nat / Int as for every Python int; `a // b` of two
+       naturals is Nat division; `range(a, -1, -1)`; `enumerate(xs)` (`Rt.enum`); `for row in <2-D array>` iterates over its
+       rows; `for i, (a, b) in ...` unpacks; `a, b, c = <1-D array>` / `(x,), (y,) = <d x 1 array>` need exactly that
+       many entries (`ValueError` in Python, `Err.badInput` here).
+     - `nodes[:, j]` with a computed int j (`Rt.idx` / `Rt.idxI` on every row), `m[i, :]` (`Rt.rowI`), `+ *` of 1-D arrays
+       (`Rt.vzip`), number * 1-D array, `np.repeat(m, n, axis=1)` (`Rt.repeatCols`).
+     - an int expression passed where the signature table says N: a negative value is `Err.badInput` (`Rt.toNatE`); a 2-D
+       array passed where it says M22: shape checked at the call (`Rt.asM22`).
+     - `np.asfortranarray(x)` of a variable x holding an array that is never updated in place returns x (an alias of an
+       immutable value is harmless).
+     - module-level array constants `NAME = np.asfortranarray(<literal list(s) of numbers>[, dtype=_FLOAT64]) [/ c]` become
+       `tbl.<module>.<NAME>` (every entry exact in binary64, else refused); `m op= c` (`*`, `/`) on a 2-D array that is the
+       value of a call of a translated function all of whose `return`s build a new array.
+     - `ABSTRACT` gains `specialize_triangle` (dictionaries: not translated), a parameter of `subdivide_nodes`.
+     - `lst.extend((a, b, ...))` with a literal tuple / list is `lst.append(a); lst.append(b); ...`; a 2-entry array (kind P)
+       passed where a 1-D array (kind V) is declared is the list of its two entries; a parameter kind may be a tuple.
+
 ACCEPTED PYTHON (per function body; docstrings ignored)
    statements : `x = e`, `a, b, _ = e` (tuple / 2-entry array unpacking), `x op= e` (numbers, arrays created in the
                 function), `if/elif/else`, `return e`, `return (e, ...)`, `raise Exc(...)`, `pass`,
@@ -154,6 +180,23 @@ SIGS = [
     ("geometric_intersection", "add_intersection", ["S", "S", ("mlist", ("tuple", ("S", "S")))]),
     ("geometric_intersection", "endpoint_check", ["SUB", "V", "S", "SUB", "V", "S", ("mlist", ("tuple", ("S", "S")))]),
     ("geometric_intersection", "tangent_bbox_intersection", ["SUB", "SUB", ("mlist", ("tuple", ("S", "S")))]),
+    # phase 4 (pytri): the pure-Python triangle kernels
+    ("triangle_helpers", "de_casteljau_one_round", ["MN", "N", "S", "S", "S"]),
+    ("triangle_helpers", "evaluate_barycentric", ["MN", "N", "S", "S", "S"]),
+    ("triangle_helpers", "evaluate_barycentric_multi", ["MN", "N", "MN", "N"]),
+    ("triangle_helpers", "evaluate_cartesian_multi", ["MN", "N", "MN", "N"]),
+    ("triangle_helpers", "jacobian_s", ["MN", "N", "N"]),
+    ("triangle_helpers", "jacobian_t", ["MN", "N", "N"]),
+    ("triangle_helpers", "jacobian_both", ["MN", "N", "N"]),
+    ("triangle_helpers", "jacobian_det", ["MN", "N", "MN"]),
+    ("triangle_intersection", "newton_refine_solve", ["C", "S", "S", "S", "S"]),
+    ("triangle_intersection", "newton_refine", ["MN", "N", "S", "S", "S", "S"]),
+    ("triangle_helpers", "quadratic_jacobian_polynomial", ["MN"]),
+    ("triangle_helpers", "cubic_jacobian_polynomial", ["MN"]),
+    ("triangle_helpers", "subdivide_nodes", ["MN", "N"]),
+    ("triangle_intersection", "mean_centroid", [("list", ("tuple", ("S", "S", "S", "MN")))]),
+    ("triangle_intersection", "update_locate_candidates",
+     [("tuple", ("S", "S", "S", "MN")), ("mlist", ("tuple", ("S", "S", "S", "MN"))), "S", "S", "N"]),
 ]
 MODULES = {
     "bezier.hazmat.helpers": "helpers",
@@ -162,6 +205,7 @@ MODULES = {
     "bezier.hazmat.triangle_helpers": "triangle_helpers",
     "bezier.hazmat.intersection_helpers": "intersection_helpers",
     "bezier.hazmat.curve_helpers": "curve_helpers",
+    "bezier.hazmat.triangle_intersection": "triangle_intersection",
     "bezier._helpers": "helpers",                      # shim, pure-Python configuration
 }
 # functions that are CALLED by translated functions but not translated themselves: the generated definitions of their
@@ -170,6 +214,8 @@ ABSTRACT = {     # (module, name) -> (parameter kinds, result kind, can raise?)
     ("intersection_helpers", "NewtonSimpleRoot"): (["MN", "MN", "MN", "MN"], "EV", False),
     ("intersection_helpers", "NewtonDoubleRoot"): (["MN", "MN", "MN", "MN", "MN", "MN"], "EV", False),
     ("intersection_helpers", "newton_iterate"): (["EV", "S", "S"], ("tuple", ("B", "S", "S")), True),
+    # phase 4 (pytri): the dictionary-based generic path of subdivide_nodes is a parameter of its caller
+    ("triangle_helpers", "specialize_triangle"): (["MN", "N", "V", "V", "V"], "MN", True),
 }
 EXC = {"NotImplementedError": "notImplemented", "ValueError": "valueError",
        "RuntimeError": "runtimeError", "UnsupportedDegree": "unsupportedDegree"}
@@ -367,6 +413,59 @@ def forM {α σ ρ : Type} (xs : List α) (init : σ) (step : σ → α → Exce
       | .inl r => .ok (.inl r)
       | .inr s => forM xs s step
 
+/-! ### phase 4 (pytri): arrays filled column by column, `enumerate`, ints declared non-negative -/
+
+/-- `x = np.empty((d, k))` that the code fills COLUMN BY COLUMN: the `d` rows written so far (nothing yet).  The
+    entries of `np.empty` are unspecified, so a column may only be written at the position directly after the
+    columns written so far and the array may only be read when all `k` columns are there (`mcFreeze`);
+    anything else is `Err.badInput` -/
+def mcNew (d : Nat) : List (List K) := List.replicate d []
+
+/-- `x[:, j] = col` for such an array with `k` columns: `col` must have one entry per row (NumPy's broadcasting
+    of a shorter `col` is not modelled) and `j` must be the number of columns written so far -/
+def pushCol (k : Nat) (m : List (List K)) (j : Int) (col : List K) : Except Err (List (List K)) :=
+  if 0 ≤ j ∧ j < (k : Int) ∧ col.length = m.length ∧ (m.all fun r => (r.length : Int) == j) = true then
+    .ok (List.zipWith (fun r x => r ++ [x]) m col)
+  else .error .badInput
+
+/-- reading such an array (returning it, using it in an expression): all `k` columns must have been written -/
+def mcFreeze (k : Nat) (m : List (List K)) : Except Err (List (List K)) :=
+  if (m.all fun r => r.length == k) = true then .ok m else .error .badInput
+
+/-- `x[:, 0] op= v` for a `d × 1` array `x` and a 1-D array `v`: `v` has `d` entries or one (broadcast); the
+    result cannot grow (`ValueError`) -/
+def vzipInto (f : K → K → K) (x v : List K) : Except Err (List K) :=
+  if x.length = v.length then .ok (List.zipWith f x v)
+  else match v with
+    | [y] => .ok (x.map fun a => f a y)
+    | _ => .error .valueError
+
+/-- `x[:a, :] = e` as the FIRST assignment to such an array (`a` at most the number of rows): its first `a` rows -/
+def mcRows0 (m : List (List K)) (a k : Nat) (e : List (List K)) : Except Err (List (List K)) :=
+  if a ≤ m.length ∧ (m.all fun r => r.isEmpty) = true then asShape a k e else .error .badInput
+
+/-- `enumerate(xs)` -/
+def enum {α : Type} (xs : List α) : List (Nat × α) := List.zip (List.range xs.length) xs
+
+/-- an int passed where the signature table declares a non-negative int (kind N): a negative value violates the
+    declared kind (`badInput`) -/
+def toNatE (i : Int) : Except Err Nat := if 0 ≤ i then .ok i.toNat else .error .badInput
+
+/-- `m[i, :]`: row `i` of a 2-D array (`IndexError`) -/
+def rowI (m : List (List K)) (i : Nat) : Except Err (List K) :=
+  match m[i]? with
+  | some r => .ok r
+  | none => .error .badInput
+
+/-- a 2-D array passed where the signature table declares a `2 × 2` array (kind M22) -/
+def asM22 (m : List (List K)) : Except Err (List (List K)) :=
+  match m with
+  | [[_, _], [_, _]] => .ok m
+  | _ => .error .badInput
+
+/-- `np.repeat(m, n, axis=1)`: every column `n` times in a row -/
+def repeatCols (m : List (List K)) (n : Nat) : List (List K) := m.map fun r => r.flatMap fun x => List.replicate n x
+
 end Rt
 """
 
@@ -436,6 +535,7 @@ def lty(k):
             "M22": "List (List K)", "M2N": "List (List K)", "MN": "List (List K)",
             "I": "Int", "N": "Nat", "X": "Rt.Ext K", "SUB": "Model.SubCurve K", "C": "List K", "S1": "K",
             "EV": "Model.NewtonEval K"}
+    base["MC"] = "List (List K)"          # phase 4 (pytri)
     if isinstance(k, str) and k in base:
         return base[k]
     if isinstance(k, tuple) and k[0] == "mlist":
@@ -669,6 +769,7 @@ class Translator:
         self.order = []
         self.problems = []
         self.enums = {}          # "Class.ATTR" -> int
+        self.tables = {}         # phase 4: Lean name -> (type, term, source name) of module-level array constants
         self.sigs = {(m, f): k for m, f, k in SIGS}
         self.stack = []
 
@@ -747,6 +848,8 @@ def assigned_names(stmts, env):
             elif isinstance(st, ast.Expr) and isinstance(st.value, ast.Call):
                 # x.append(e) and f(.., x, ..) re-bind a list variable x
                 c = st.value
+                if isinstance(c.func, ast.Attribute) and isinstance(c.func.value, ast.Name) and c.func.attr == "extend":
+                    targets(c.func.value)          # phase 4 (pytri)
                 if isinstance(c.func, ast.Attribute) and isinstance(c.func.value, ast.Name) and c.func.attr == "append":
                     targets(c.func.value)
                 for a in c.args:
@@ -942,6 +1045,8 @@ class FunctionTranslator:
             return "Rt.Ext.fin %s" % atom(val.code)
         if k == "N" and target == "I":
             return "(%s : Int)" % val.code
+        if k == "S" and val.intval is not None and target in ("N", "I") and (target == "I" or val.intval >= 0):
+            return self.as_nat(val) if target == "N" else self.as_int(val)      # phase 4: int counters of loops
         if is_list(k) and is_list(target) and (k[1] is None or k[1] == target[1]):
             return val.code
         if is_opt(target):
@@ -1060,9 +1165,27 @@ class FunctionTranslator:
             if len(st.targets) != 1:
                 raise Problem("chained assignment (%s)" % where)
             return self.assign(st.targets[0], st.value, rest, env, k, where)
+        if isinstance(st, ast.AugAssign) and isinstance(st.target, ast.Subscript) and isinstance(st.target.value, ast.Name) \
+                and st.target.value.id in env and env[st.target.value.id].kind == "C" and env[st.target.value.id].inplace \
+                and isinstance(st.op, (ast.Add, ast.Sub, ast.Mult)) and isinstance(st.target.slice, ast.Tuple) \
+                and len(st.target.slice.elts) == 2 and isinstance(st.target.slice.elts[0], ast.Slice) \
+                and ast.unparse(st.target.slice.elts[0]) == ":" and self.const_index_opt(st.target.slice.elts[1]) == 0:
+            # phase 4: `x[:, 0] += v` for a d x 1 array x created in this function and a 1-D array v
+            name = st.target.value.id
+            binds, v = self.tx(st.value, env)
+            if v.kind not in ("V", "C"):
+                raise Problem("`%s[:, 0] op= ...` with a value of kind %r (%s)" % (name, v.kind, where))
+            opc = {ast.Add: "+", ast.Sub: "-", ast.Mult: "*"}[type(st.op)]
+            binds.append(("bind", lname(name), "Rt.vzipInto (fun x y => x %s y) %s %s" % (opc, lname(name), atom(v.code))))
+            env2 = dict(env)
+            env2[name] = Val("C", lname(name), inplace=True)
+            return wrap(binds, self.block(rest, env2, k))
         if isinstance(st, ast.AugAssign):
             ok_aug = isinstance(st.target, ast.Name) and st.target.id in env and (
                 env[st.target.id].kind in ("S", "I", "N") or (env[st.target.id].kind == "C" and env[st.target.id].inplace))
+            ok_aug = ok_aug or (isinstance(st.target, ast.Name) and st.target.id in env     # phase 4 (pytri)
+                                and env[st.target.id].kind == "MN" and getattr(env[st.target.id], "fresh", False)
+                                and isinstance(st.op, (ast.Mult, ast.Div)))
             if not ok_aug:
                 raise Problem("augmented assignment to something else than a number variable or an array created in "
                               "this function (%s)" % where)
@@ -1137,6 +1260,21 @@ class FunctionTranslator:
 
     def call_stmt(self, c, rest, env, k, where):
         f = c.func
+        if isinstance(f, ast.Attribute) and f.attr == "extend" and isinstance(f.value, ast.Name) and f.value.id in env \
+                and is_list(env[f.value.id].kind) and len(c.args) == 1 and not c.keywords \
+                and isinstance(c.args[0], (ast.Tuple, ast.List)) \
+                and not any(isinstance(e, ast.Starred) for e in c.args[0].elts):
+            # phase 4 (pytri): `lst.extend((a, b, ...))` with a literal tuple / list = `lst.append(a); lst.append(b); ...`
+            # (Python evaluates a, b, ... before appending; the entries are expressions without side effects here and an
+            # exception raised by a later entry leaves no partly extended list behind, since it ends the function)
+            new = []
+            for e in c.args[0].elts:
+                a = ast.Expr(value=ast.Call(func=ast.Attribute(value=ast.Name(id=f.value.id, ctx=ast.Load()), attr="append",
+                                                               ctx=ast.Load()), args=[e], keywords=[]))
+                ast.copy_location(a, c)
+                ast.fix_missing_locations(a)
+                new.append(a)
+            return self.block(new + rest, env, k)
         if isinstance(f, ast.Attribute) and f.attr == "append" and isinstance(f.value, ast.Name) and f.value.id in env \
                 and is_list(env[f.value.id].kind):
             name = f.value.id
@@ -1176,6 +1314,9 @@ class FunctionTranslator:
                 binds, av = self.tx(it.args[0], env)
                 b2, bv = self.tx(it.args[1], env)
                 binds += b2
+                if self.is_int(av) and bv.intval == -1:
+                    # phase 4: range(a, -1, -1) = a, a-1, ..., 0   (nothing for a < 0)
+                    return binds, "List.reverse (List.range (Int.toNat (%s + 1)))" % atom(self.as_int(av)), "N"
                 if not self.is_int(av) or bv.intval is None or bv.intval < 0:
                     raise Problem("descending range with these bounds (%s)" % where)
                 return binds, "List.reverse (List.range' %d (%s - %d))" % (bv.intval + 1, self.dim_nat(av), bv.intval), "N"
@@ -1195,7 +1336,13 @@ class FunctionTranslator:
             if vals[0].intval is None or vals[0].intval < 0:
                 raise Problem("the start of a range must be a non-negative integer constant (%s)" % where)
             return binds, "List.range' %d (%s - %d)" % (vals[0].intval, stop_code, vals[0].intval), "N"
+        if isinstance(it, ast.Call) and isinstance(it.func, ast.Name) and it.func.id == "enumerate" \
+                and "enumerate" not in env and len(it.args) == 1 and not it.keywords:
+            binds, code, ek = self.iterable(it.args[0], env, where)          # phase 4
+            return binds, "Rt.enum %s" % atom(code), ("tuple", ("N", ek))
         binds, v = self.tx(it, env)
+        if v.kind == "MN" and not v.wide and not v.inplace:
+            return binds, v.code, "V"                                        # phase 4: the rows of a 2-D array
         if is_list(v.kind) and v.kind[1] is not None:
             return binds, v.code, v.kind[1]
         if v.kind == "V":
@@ -1228,6 +1375,23 @@ class FunctionTranslator:
                     new.append(a)
                     new.extend(st.body)
                 return self.block(new + rest, env, k)
+        if isinstance(st.target, ast.Tuple) and any(isinstance(e, ast.Tuple) for e in st.target.elts):
+            # phase 4: `for index, (a, b, c) in ...` = `for index, tN in ...: (a, b, c) = tN; ...`
+            elts, pre = [], []
+            for e in st.target.elts:
+                if isinstance(e, ast.Tuple):
+                    tn = self.tmp()
+                    self.names.add(tn)
+                    a = ast.Assign(targets=[e], value=ast.Name(id=tn, ctx=ast.Load()))
+                    ast.copy_location(a, st)
+                    ast.fix_missing_locations(a)
+                    pre.append(a)
+                    e = ast.Name(id=tn, ctx=ast.Store())
+                elts.append(e)
+            new = ast.For(target=ast.Tuple(elts=elts, ctx=ast.Store()), iter=st.iter, body=pre + st.body, orelse=[])
+            ast.copy_location(new, st)
+            ast.fix_missing_locations(new)
+            return self.for_loop(new, rest, env, k, where)
         binds, it_code, ek = self.iterable(it, env, where)
         if isinstance(st.target, ast.Name):
             tnames, tkinds, tpat = [st.target.id], [ek], lname(st.target.id)
@@ -1244,6 +1408,9 @@ class FunctionTranslator:
         carried = [n for n in env if n in names]      # in the order of their definition before the loop
         lost = [n for n in names if n not in carried] + [n for n in tnames if n != "_"]
         kinds = {n: env[n].kind for n in carried}
+        for n in carried:                              # phase 4: `index = 0` ... `index += 1`
+            if env[n].kind == "S" and env[n].intval is not None and not env[n].unit:
+                kinds[n] = "N" if env[n].intval >= 0 else "I"
 
         def run_body(final):
             envs = []
@@ -1311,6 +1478,8 @@ class FunctionTranslator:
         def is_full(x):
             return isinstance(x, ast.Slice) and x.lower is None and x.upper is None and x.step is None
         full = is_full(sl)
+        if isinstance(target.value, ast.Name) and target.value.id in env and env[target.value.id].kind in ("MC", "MR"):
+            return self.mc_assign(target.value.id, sl, value, rest, env, k, where)
         if isinstance(target.value, ast.Name) and isinstance(self.prealloc.get(target.value.id), tuple) \
                 and isinstance(sl, ast.Tuple) and len(sl.elts) == 3 and is_full(sl.elts[0]):
             return self.wide_assign(target.value.id, sl.elts[1], sl.elts[2], value, rest, env, k, where)
@@ -1349,6 +1518,98 @@ class FunctionTranslator:
         env2 = dict(env)
         env2[name] = Val(v.kind, lname(name), inplace=True)
         return wrap(binds, Let(lname(name), v.code, self.block(rest, env2, k)))
+
+    # phase 4 (pytri): `x = np.empty((d, k))` filled column by column (`x[:, j] = col`, `x[0, j] = number` when d is the
+    # constant 1) or by the two row blocks `x[:a, :] = A`, `x[a:, :] = B`.  Kind MC: the rows written so far
+    # (Rt.mcNew / Rt.pushCol); reading the variable is Rt.mcFreeze.  Kind MR: only the first row block is there.
+    def mc_create(self, name, pk, rest, env, k, where):
+        _, dv, kv = pk
+        td, tk = self.tmp(), self.tmp()
+        if not hasattr(self, "mc_dims"):
+            self.mc_dims = {}
+        self.mc_dims[name] = (td, tk, dv.intval if dv.kind == "S" else None)
+        env2 = dict(env)
+        env2[name] = Val("MC", lname(name), inplace=True)
+        ir = Let(td, self.dim_nat(dv), Let(tk, self.dim_nat(kv),
+                 Let(lname(name), "(Rt.mcNew %s : List (List K))" % td, self.block(rest, env2, k))))
+        for dim in (kv, dv):                            # a negative dimension: ValueError
+            if not self.natlike(dim):
+                ir = Ite("%s < 0" % atom(self.as_int(dim)), Fail("valueError"), ir)
+        return ir
+
+    def mc_assign(self, name, sl, value, rest, env, k, where):
+        def is_full(x):
+            return isinstance(x, ast.Slice) and x.lower is None and x.upper is None and x.step is None
+        cur = env[name]
+        td, tk, dconst = self.mc_dims[name]
+        if not (isinstance(sl, ast.Tuple) and len(sl.elts) == 2):
+            raise Problem("assignment target %s[...] (%s)" % (name, where))
+        first, second = sl.elts
+        binds, v = self.tx(value, env)
+        if v.inplace and isinstance(value, ast.Name):
+            raise Problem("copy of an array that is updated in place (%s)" % where)
+        env2 = dict(env)
+        if cur.kind == "MC" and not isinstance(second, ast.Slice) and (is_full(first) or (
+                dconst == 1 and self.const_index_opt(first) == 0)):
+            b2, jv = self.tx(second, env)
+            binds += b2
+            if not self.is_int(jv):
+                raise Problem("column index of kind %r (%s)" % (jv.kind, where))
+            if is_full(first):
+                if v.kind == "P":
+                    col = "[%s.1, %s.2]" % (atom(v.code), atom(v.code))
+                elif v.kind in ("V", "C"):
+                    col = atom(v.code)
+                else:
+                    raise Problem("`%s[:, j] = ...` with a value of kind %r (%s)" % (name, v.kind, where))
+            else:
+                col = "[%s]" % self.as_scalar(binds, v, "array entry (%s)" % where).code
+            binds.append(("bind", lname(name), "Rt.pushCol %s %s %s %s" % (tk, lname(name), atom(self.as_int(jv)), col)))
+            env2[name] = Val("MC", lname(name), inplace=True)
+            return wrap(binds, self.block(rest, env2, k))
+        if is_full(second) and isinstance(first, ast.Slice) and first.step is None and v.kind == "MN":
+            lo, hi = first.lower, first.upper
+            if cur.kind == "MC" and lo is None and isinstance(hi, ast.Name) and hi.id in env and self.natlike(env[hi.id]):
+                a = atom(self.as_nat(env[hi.id]))
+                new = Val("MR", lname(name), inplace=True)
+                new.split = (hi.id, env[hi.id])
+                env2[name] = new
+                binds.append(("bind", lname(name), "Rt.mcRows0 %s %s %s %s" % (lname(name), a, tk, atom(v.code))))
+                return wrap(binds, self.block(rest, env2, k))
+            if cur.kind == "MR" and hi is None and isinstance(lo, ast.Name) and cur.split[0] == lo.id \
+                    and env.get(lo.id) is cur.split[1]:
+                a = atom(self.as_nat(env[lo.id]))
+                t = self.tmp()
+                binds.append(("bind", t, "Rt.asShape (%s - %s) %s %s" % (td, a, tk, atom(v.code))))
+                env2[name] = Val("MN", lname(name), inplace=True)
+                return wrap(binds, Let(lname(name), "%s ++ %s" % (lname(name), t), self.block(rest, env2, k)))
+        raise Problem("assignment target %s[%s] (%s)" % (name, ast.unparse(sl), where))
+
+    def fresh_call(self, value):
+        """phase 4: is `value` a call of a translated function all of whose `return` expressions build a new array
+        (a call, possibly followed by `.T`), so that nothing else can refer to the result?"""
+        if not (isinstance(value, ast.Call) and isinstance(value.func, (ast.Name, ast.Attribute))):
+            return False
+        f = value.func
+        if isinstance(f, ast.Name):
+            mod, fn = self.modname, f.id
+        elif isinstance(f.value, ast.Name) and self.mod.aliases.get(f.value.id) not in (None, "numpy", "bisect"):
+            mod, fn = self.mod.aliases[f.value.id], f.attr
+        else:
+            return False
+        if (mod, fn) not in self.tr.sigs:
+            return False
+        node = self.tr.module(mod).funcs.get(fn)
+        if node is None:
+            return False
+        rets = [n for n in ast.walk(node) if isinstance(n, ast.Return)]
+        for r in rets:
+            e = r.value
+            while isinstance(e, ast.Attribute) and e.attr == "T":
+                e = e.value
+            if not isinstance(e, ast.Call):
+                return False
+        return bool(rets)
 
     def dim_nat(self, v):
         return self.as_nat(v) if self.natlike(v) else "Int.toNat %s" % atom(self.as_int(v))
@@ -1406,6 +1667,8 @@ class FunctionTranslator:
         if isinstance(target, ast.Name) and self.np_empty_kind(value, env) is not None:
             # np.empty(...): no value until the array is overwritten (`x[:] = ...`); reading it before is refused
             pk = self.np_empty_kind(value, env)
+            if isinstance(pk, tuple) and pk[0] == "MC":
+                return self.mc_create(target.id, pk, rest, env, k, where)
             self.prealloc[target.id] = pk
             env2 = dict(env)
             env2.pop(target.id, None)
@@ -1438,6 +1701,10 @@ class FunctionTranslator:
                 env2[target.id].unit = v.unit and v.kind == "S"
                 env2[target.id].intval = v.intval if v.kind == "S" else None
                 env2[target.id].wide = v.wide and is_param_struct
+                # phase 4: the value of a call of a translated function whose every `return` delivers a new array
+                env2[target.id].fresh = v.kind == "MN" and (self.fresh_call(value) or (
+                    isinstance(value, ast.BinOp) and isinstance(value.left, ast.Name) and value.left.id == target.id
+                    and getattr(env.get(target.id), "fresh", False)))
                 self.aug_owner = None
             if binds and binds[-1][0] == "bind" and binds[-1][1] == v.code:
                 binds = binds[:-1] + [("bind", n, binds[-1][2])]
@@ -1445,6 +1712,15 @@ class FunctionTranslator:
             return wrap(binds, Let(n, v.code, self.block(rest, env2, k)))
         if isinstance(target, (ast.Tuple, ast.List)):
             names = []
+            if len(target.elts) == 2 and v.kind == "C" and all(
+                    isinstance(e, ast.Tuple) and len(e.elts) == 1 and isinstance(e.elts[0], ast.Name)
+                    and e.elts[0].id != "_" for e in target.elts):
+                # phase 4: `(x,), (y,) = <d x 1 array>`: d must be 2
+                for e in target.elts:
+                    env2[e.elts[0].id] = Val("S", lname(e.elts[0].id))
+                binds.append(("bind", "(%s, %s)" % tuple(lname(e.elts[0].id) for e in target.elts),
+                              "Rt.asPt %s" % atom(v.code)))
+                return wrap(binds, self.block(rest, env2, k))
             for e in target.elts:
                 if not isinstance(e, ast.Name):
                     raise Problem("nested unpacking (%s)" % where)
@@ -1453,6 +1729,12 @@ class FunctionTranslator:
                 kinds = list(v.kind[1])
             elif v.kind == "P":
                 kinds = ["S", "S"]
+            elif v.kind == "V" and all(n == "_" or lname(n) == n for n in names):
+                # phase 4: `a, b, c = <1-D array>`: exactly that many entries (ValueError otherwise; here badInput)
+                for n in names:
+                    if n != "_":
+                        env2[n] = Val("S", n)
+                return wrap(binds, Shape(v.code, "[" + ", ".join(names) + "]", self.block(rest, env2, k)))
             else:
                 raise Problem("unpacking a value of kind %r (%s)" % (v.kind, where))
             if len(kinds) != len(names):
@@ -1520,6 +1802,41 @@ class FunctionTranslator:
                     return self.const_eval(other.consts[node.attr], other, depth + 1)
         return None
 
+    def array_const(self, node):
+        """phase 4: `np.asfortranarray(<list of numbers | list of equally long lists of numbers>[, dtype=NAME])`, optionally
+        divided by a numeric constant -> ("V", [values]) / ("MN", [[values]]); every entry must be exact in binary64"""
+        div = Fr(1)
+        if isinstance(node, ast.BinOp) and isinstance(node.op, ast.Div):
+            div = self.const_eval(node.right)
+            node = node.left
+            if div is None or div == 0:
+                return None
+        if not (isinstance(node, ast.Call) and isinstance(node.func, ast.Attribute) and node.func.attr == "asfortranarray"
+                and isinstance(node.func.value, ast.Name) and self.mod.aliases.get(node.func.value.id) == "numpy"
+                and len(node.args) == 1 and isinstance(node.args[0], ast.List) and node.args[0].elts
+                and all(k.arg == "dtype" and isinstance(k.value, ast.Name) and k.value.id in ("_FLOAT64", "FLOAT64")
+                        for k in node.keywords)):
+            return None
+
+        def num(e):
+            if isinstance(e, ast.UnaryOp) and isinstance(e.op, ast.USub):
+                v = num(e.operand)
+                return None if v is None else -v
+            if isinstance(e, ast.Constant) and isinstance(e.value, (int, float)) and not isinstance(e.value, bool):
+                v = Fr(e.value) / div
+                return v if Fr(float(v)) == v else None
+            return None
+        elts = node.args[0].elts
+        if all(isinstance(e, ast.List) for e in elts):
+            rows = [[num(x) for x in e.elts] for e in elts]
+            if any(len(r) != len(rows[0]) or not r or None in r for r in rows):
+                return None
+            return "MN", rows
+        vals = [num(e) for e in elts]
+        if None in vals:
+            return None
+        return "V", vals
+
     def const_int(self, node, mod=None, depth=0):
         """value of an integer-typed constant expression (Python int arithmetic), or None"""
         mod = mod or self.mod
@@ -1580,8 +1897,14 @@ class FunctionTranslator:
             return Val("I", self.as_int(v))
         if kind == "N" and self.natlike(v):
             return Val("N", self.as_nat(v))
+        if kind == "N" and v.kind == "I":               # phase 4: a negative value violates the declared kind
+            t = self.tmp()
+            binds.append(("bind", t, "Rt.toNatE %s" % atom(v.code)))
+            return Val("N", t)
         if kind == "X" and v.kind == "S":
             return Val("X", "Rt.Ext.fin %s" % atom(v.code))
+        if kind == "V" and v.kind == "P":               # phase 4 (pytri): a 2-entry array as a 1-D array
+            return Val("V", "[%s.1, %s.2]" % (atom(v.code), atom(v.code)))
         if kind == "P" and v.kind in ("V", "C"):
             t = self.tmp()
             binds.append(("bind", t, "Rt.asPt %s" % atom(v.code)))
@@ -1608,7 +1931,25 @@ class FunctionTranslator:
             if isinstance(node.value, bool):
                 return [], Val("B", "true" if node.value else "false")
             raise Problem("constant %r (%s)" % (node.value, where))
+        if isinstance(node, ast.Name) and node.id not in env and node.id not in self.locals_ \
+                and node.id in self.mod.consts and self.array_const(self.mod.consts[node.id]) is not None:
+            # phase 4: a module-level array constant `NAME = np.asfortranarray(<literal>, dtype=...) [/ c]`
+            kind, rows = self.array_const(self.mod.consts[node.id])
+            cname = "tbl.%s.%s" % (self.modname, node.id)
+            if kind == "MN":
+                code = "[" + ",\n   ".join("[" + ", ".join(lit(x) for x in r) + "]" for r in rows) + "]"
+                self.tr.tables[cname] = ("List (List K)", code, "%s.%s" % (self.modname, node.id))
+            else:
+                self.tr.tables[cname] = ("List K", "[" + ", ".join(lit(x) for x in rows) + "]",
+                                         "%s.%s" % (self.modname, node.id))
+            return [], Val(kind, "(%s : %s)" % (cname, "List (List K)" if kind == "MN" else "List K"))
         if isinstance(node, ast.Name):
+            if node.id in env and env[node.id].kind == "MR":
+                raise Problem("array %s is used before its second block of rows is assigned (%s)" % (node.id, where))
+            if node.id in env and env[node.id].kind == "MC":
+                t = self.tmp()                  # phase 4: all columns must have been written
+                return [("bind", t, "Rt.mcFreeze %s %s" % (self.mc_dims[node.id][1], lname(node.id)))], \
+                    Val("MN", t, inplace=True)
             if node.id in env:
                 return [], env[node.id]
             raise Problem("name %s is not a parameter, a (definitely assigned) local or a numeric module constant (%s)"
@@ -1675,8 +2016,17 @@ class FunctionTranslator:
             binds += b2
             ops = {ast.Add: "+", ast.Sub: "-", ast.Mult: "*", ast.Div: "/"}
             op = ops.get(type(node.op))
+            if isinstance(node.op, ast.FloorDiv) and self.natlike(a) and self.natlike(b):
+                return binds, Val("N", "%s / %s" % (atom(self.as_nat(a)), atom(self.as_nat(b))))    # phase 4
             if op is None:
                 raise Problem("operator %s (%s)" % (type(node.op).__name__, where))
+            if a.kind == "V" and b.kind == "V" and op in "+*":                                     # phase 4
+                t = self.tmp()
+                binds.append(("bind", t, "Rt.vzip (fun x y => x %s y) %s %s" % (op, atom(a.code), atom(b.code))))
+                return binds, Val("V", t)
+            if op == "*" and b.kind == "V" and a.kind in ("S", "I", "N") and not a.unit:         # phase 4
+                a = self.as_scalar(binds, a, "factor of an array (%s)" % where)
+                return binds, Val("V", "List.map (fun x => %s * x) %s" % (atom(a.code), atom(b.code)))
             if a.kind == "P" and b.kind == "P" and op == "-":
                 return binds, Val("P", "Model.psub %s %s" % (atom(a.code), atom(b.code)))
             if a.kind == "V" and b.kind == "V" and op == "-":
@@ -1780,6 +2130,15 @@ class FunctionTranslator:
                 vals.append(v)
             if vals[1].kind == "S" and vals[1].intval == 1:
                 return ("W", vals[0], vals[2])
+        if len(node.args) == 1 and set(kw) <= {"order"} and isinstance(node.args[0], ast.Tuple) \
+                and len(node.args[0].elts) == 2 and env is not None:
+            vals = []                                   # phase 4: ("MC", d, k), see `mc_create`
+            for e in node.args[0].elts:
+                b, v = self.tx(e, env)
+                if b or not self.is_int(v):
+                    raise Problem("np.empty with this shape (line %d)" % node.lineno)
+                vals.append(v)
+            return ("MC", vals[0], vals[1])
         raise Problem("np.empty with this shape (line %d)" % node.lineno)
 
     def compare(self, node, env, where):
@@ -1969,6 +2328,12 @@ class FunctionTranslator:
             t = self.tmp()
             binds.append(("bind", t, "Rt.lidx %s %s" % (atom(base.code), atom(self.as_nat(iv)))))
             return binds, Val(base.kind[1], t)
+        if base.kind == "MN" and isinstance(sl, ast.Tuple) and len(sl.elts) == 2 and isinstance(sl.elts[1], ast.Slice) \
+                and sl.elts[1].lower is None and sl.elts[1].upper is None and sl.elts[1].step is None \
+                and self.const_index_opt(sl.elts[0]) is not None and self.const_index_opt(sl.elts[0]) >= 0:
+            t = self.tmp()                            # phase 4: `m[i, :]` with a constant i >= 0
+            binds.append(("bind", t, "Rt.rowI %s %d" % (atom(base.code), self.const_index_opt(sl.elts[0]))))
+            return binds, Val("V", t)
         if base.kind == "MN" and isinstance(sl, ast.Tuple) and len(sl.elts) == 2 and isinstance(sl.elts[1], ast.Slice):
             first, second = sl.elts
             if isinstance(first, ast.Slice) and first.lower is None and first.upper is None and first.step is None \
@@ -1988,6 +2353,20 @@ class FunctionTranslator:
                         raise Problem("slice bound of kind %r (%s)" % (bv.kind, where))
                     bounds.append("(some %s)" % atom(self.as_int(bv)))
             return binds, Val("MN", "Rt.cols %s %s %s" % (atom(base.code), bounds[0], bounds[1]))
+        if base.kind == "MN" and isinstance(sl, ast.Tuple) and len(sl.elts) == 2 \
+                and not isinstance(sl.elts[1], (ast.Slice, ast.List)) and self.const_index_opt(sl.elts[1]) is None \
+                and isinstance(sl.elts[0], ast.Slice) and sl.elts[0].lower is None and sl.elts[0].upper is None \
+                and sl.elts[0].step is None:
+            b2, jv = self.tx(sl.elts[1], env)         # phase 4: `nodes[:, j]` with a computed int j
+            binds += b2
+            if not self.is_int(jv):
+                raise Problem("column index of kind %r (%s)" % (jv.kind, where))
+            t = self.tmp()
+            if self.natlike(jv):
+                binds.append(("bind", t, "List.mapM (fun r => Rt.idx r %s) %s" % (atom(self.as_nat(jv)), atom(base.code))))
+            else:
+                binds.append(("bind", t, "List.mapM (fun r => Rt.idxI r %s) %s" % (atom(self.as_int(jv)), atom(base.code))))
+            return binds, Val("V", t)
         if base.kind == "MN" and isinstance(sl, ast.Tuple) and len(sl.elts) == 2:
             first, second = sl.elts
             full = isinstance(first, ast.Slice) and first.lower is None and first.upper is None and first.step is None
@@ -2137,6 +2516,10 @@ class FunctionTranslator:
             elif kd == "S1":
                 if not (v.kind == "S" and v.unit):
                     raise Problem("argument %s of %s must be a one-entry array (%s)" % (pn, fn, where))
+            elif kd == "M22" and v.kind == "MN" and not v.wide:
+                t = self.tmp()                        # phase 4: the shape is checked at the call
+                binds.append(("bind", t, "Rt.asM22 %s" % atom(v.code)))
+                v = Val("M22", t)
             elif kd in ("M22", "M2N", "MN", "SUB", "C"):
                 if v.kind != kd:
                     raise Problem("argument %s of %s: kind %r where %r is required (%s)" % (pn, fn, v.kind, kd, where))
@@ -2227,6 +2610,9 @@ class FunctionTranslator:
         if target[0] == "np" and name in ("asfortranarray", "array") and len(node.args) == 1 and not kw \
                 and not isinstance(node.args[0], ast.List):
             binds, v = self.tx(node.args[0], env)
+            if v.kind == "MN" and isinstance(node.args[0], ast.Name) and not v.inplace and not v.wide \
+                    and node.args[0].id not in self.prealloc:
+                return binds, v       # phase 4: an array that is never updated in place (a possible alias is harmless)
             if v.kind != "MN" or isinstance(node.args[0], ast.Name):
                 raise Problem("np.%s of a value of kind %r / of a variable (a possible alias) (%s)" % (name, v.kind, where))
             return binds, v
@@ -2286,6 +2672,13 @@ class FunctionTranslator:
             t = self.tmp()
             binds.append(("bind", t, "Rt.npDot %s %s" % (atom(a.code), atom(b.code))))
             return binds, Val("MN", t)
+        if target[0] == "np" and name == "repeat" and len(node.args) == 2 and set(kw) == {"axis"} and kw_is("axis", 1):
+            binds, v = self.tx(node.args[0], env)            # phase 4
+            b2, n = self.tx(node.args[1], env)
+            binds += b2
+            if v.kind != "MN" or v.wide or not self.natlike(n):
+                raise Problem("np.repeat of kinds %r, %r (%s)" % (v.kind, n.kind, where))
+            return binds, Val("MN", "Rt.repeatCols %s %s" % (atom(v.code), atom(self.as_nat(n))))
         if target[0] == "np" and name == "all" and len(node.args) == 1 and not kw:
             binds, v = self.tx(node.args[0], env)
             if v.kind != "VB":
@@ -2348,6 +2741,9 @@ def main():
     enums = "".join("def %s : Nat := %d\n" % (n, v) for n, v in sorted(tr.enums.items()))
     if enums:
         enums = "/-! ## integer attributes of plain classes (enum values) -/\n" + enums + "\n"
+    if tr.tables:
+        enums += "/-! ## module-level array constants -/\n" + "".join(
+            "/-- `%s` -/\ndef %s : %s :=\n  %s\n\n" % (src, n, ty, code) for n, (ty, code, src) in sorted(tr.tables.items()))
     text = HEADER + RUNTIME + "\n" + enums + "/-! ## translated functions -/\n\n" + "\n".join(parts) + "\nend BezierVerif.Src.Py\n"
     old = None
     if os.path.exists(out):
